@@ -95,6 +95,23 @@ func c16Eval(t tb, c cfgCase) {
 		}
 		v := observeVerdict(o)
 		sort.Strings(v.Cycles)
+		// --stub changes what is written, never which diagnostics of the output validation remain: the switches mean the
+		// same in both modes (only runs that stop in the output validation are compared; what the two modes write is C17's)
+		if v.Stage == "output" {
+			sf := f
+			sf.Stub = true
+			if sspec, err := singleFile(c.C, c.Style, sf); err == nil {
+				os := runInproc(sspec)
+				sv := observeVerdict(os)
+				os.cleanup()
+				if sv.Stage != v.Stage || strings.Join(sv.factList(), ";") != strings.Join(v.factList(), ";") {
+					o.cleanup()
+					violation(t, "stub-changes-the-diagnostics", fmt.Sprintf("flags [%s]: %s %v, with --stub in addition: %s %v", f.String(), v.Stage, v.factList(), sv.Stage, sv.factList()), cc)
+					return
+				}
+				col.Label("stub-parity-checked")
+			}
+		}
 		obs = append(obs, v)
 		outs = append(outs, o.Out)
 		reports = append(reports, o.Report.Errors)
